@@ -31,7 +31,7 @@ FILES = ["NodeStateOps.tla", "FdOps.tla", "Gossip.tla", "MC_Gossip.tla", "TraceG
 FORMULAS = {
     "C01": {"inv": [], "props": ["C01_ConvergedReal", "C01_ProgressObs"]},
     "C02": {"inv": ["C02_NoResurrection"], "props": []},
-    "C03": {"inv": ["C03_Integrity"], "props": []},
+    "C03": {"inv": ["C03_Integrity", "C03_KnownMembers"], "props": []},
     "C04": {"inv": ["C04_NoPanic"], "props": ["C04_Monotonic", "C04_FreshVersion"]},
     "C05": {"inv": ["C05_OwnerAhead"], "props": ["C05_OwnUntouched"]},
     "C07": {"inv": [], "props": ["C07_Structure", "C07_Size"]},
@@ -44,7 +44,7 @@ FORMULAS = {
 ALL_INV = ["C02_NoResurrection", "C03_Integrity", "C04_NoPanic", "C05_OwnerAhead",
            "WellFormedCopies", "C12_Sets", "C16_Isolation"]
 MODEL_ONLY_INV = ["NoStaleTombstones"]
-TRACE_ONLY_INV = ["C18_LiveNeedsHeartbeats"]    # defined in TraceGossip / ObserveGossip (needs the evid ghost)
+TRACE_ONLY_INV = ["C18_LiveNeedsHeartbeats", "C03_KnownMembers"]    # defined in TraceGossip / ObserveGossip (needs the evid ghost)
 ALL_PROPS = ["C04_Monotonic", "C04_FreshVersion", "C05_OwnUntouched", "C20_Callback",
              "C07_Structure", "C12_Partition", "C12_Quarantine", "C12_Removal", "C12_NoRevival",
              "C13_Publish", "C13_OnlyEval", "C16_Reject", "C18_Catchup", "C18_NoPanic", "C01_ConvergedReal"]
@@ -269,6 +269,11 @@ def schedule_traces(tier, seed):
                         on = not on
                     pat.append(on)
                 talk[p] = pat
+            # in a third of the schedules one peer writes once more in some epoch and the observer fetches that
+            # newer state through the external catch-up entry point while the peer is (typically) live
+            cu_peer = rnd.choice(peers) if rnd.random() < 0.34 else None
+            cu_epoch = rnd.randint(2, epochs - 2)
+            nwrites = {p: sum(1 for x in st if x.get("a") == "Set" and x.get("n") == p) for p in peers}
             for e in range(epochs):
                 order = [p for p in peers if talk[p][e]]
                 rnd.shuffle(order)
@@ -277,6 +282,17 @@ def schedule_traces(tier, seed):
                         _hs(st, p, "n1")
                     else:
                         _hs(st, "n1", p)
+                if cu_peer is not None and e == cu_epoch:
+                    ver = nwrites[cu_peer] + 1
+                    st.append({"a": "Set", "n": cu_peer, "k": "k3", "v": "v1"})
+                    kvs = {"k3": {"val": "v1", "ver": ver, "st": "Set"}}
+                    if nwrites[cu_peer] >= 1:
+                        kvs["k1"] = {"val": [x for x in st if x.get("a") == "Set" and x.get("n") == cu_peer and x["k"] == "k1"][-1]["v"],
+                                     "ver": 1, "st": "Set"}
+                    if nwrites[cu_peer] >= 2:
+                        kvs["k2"] = {"val": [x for x in st if x.get("a") == "Set" and x.get("n") == cu_peer and x["k"] == "k2"][-1]["v"],
+                                     "ver": 2, "st": "Set"}
+                    st.append({"a": "Catchup", "n": "n1", "x": cu_peer, "kvs": kvs, "max": ver, "gc": 0})
                 st.append({"a": "Advance", "d": rnd.choice([1, 1, 2, 3])})
                 if rnd.random() < 0.45 or e == epochs - 1:
                     st.append({"a": "Liveness", "n": "n1"})
